@@ -23,3 +23,19 @@ pub fn track<T>(f: impl FnOnce() -> T) -> T { ON.with(|o| o.set(true)); let r = 
 pub fn live() -> usize { LIVE.load(Ordering::Relaxed) }
 pub fn reset_peak() { PEAK.store(LIVE.load(Ordering::Relaxed), Ordering::Relaxed) }
 pub fn peak() -> usize { PEAK.load(Ordering::Relaxed) }
+
+/// forget everything tracked so far (start of a case)
+pub fn clear() {
+    for i in 0..CAP {
+        ADDR[i].store(0, Ordering::Relaxed);
+    }
+    LIVE.store(0, Ordering::Relaxed);
+    PEAK.store(0, Ordering::Relaxed);
+}
+pub fn track_if<T>(on: bool, f: impl FnOnce() -> T) -> T {
+    if on {
+        track(f)
+    } else {
+        f()
+    }
+}
